@@ -153,6 +153,27 @@ func runSelfTest(p *PropertyDef, repo string, known []KnownFinding) *selfTestSum
 				}
 			}
 			sort.Strings(fresh)
+			if m.Kind == "repair" {
+				// the variant repairs a defect present on the current tree: every baseline report of
+				// the named rule must disappear and nothing new may appear
+				gone := true
+				for k := range base {
+					if strings.HasPrefix(k, m.ExpectRule) {
+						if _, still := cur[k]; still {
+							gone = false
+						}
+					}
+				}
+				switch {
+				case len(fresh) > 0:
+					o.status, o.detail = "noisy", "repair variant raises new reports: "+strings.Join(fresh, " ; ")
+				case !gone:
+					o.status, o.detail = "noisy", "repair variant still reported by "+m.ExpectRule
+				default:
+					o.status = "silent"
+				}
+				return
+			}
 			if m.Kind == "control" {
 				if len(fresh) == 0 {
 					o.status = "silent"
